@@ -5,6 +5,7 @@ import (
 	"go/ast"
 	"go/token"
 	"go/types"
+	"sort"
 	"strings"
 
 	"golang.org/x/tools/go/ssa"
@@ -34,7 +35,126 @@ func (fr *Frame) call(c *ssa.CallCommon, p token.Pos, instr ssa.Instruction) []V
 		return fr.callFunc(callee, nil, args, p)
 	}
 	fv := fr.val(c.Value)
+	if fv.fn == nil && fr.cx.bc != nil {
+		// function value loaded from a struct field that has a `fnparam .<field>` spec in the contract under verification
+		if u, ok := c.Value.(*ssa.UnOp); ok && u.Op == token.MUL {
+			if fa, ok := u.X.(*ssa.FieldAddr); ok {
+				if pt, ok := fa.X.Type().Underlying().(*types.Pointer); ok {
+					if st, ok := pt.Elem().Underlying().(*types.Struct); ok {
+						if sp := fr.cx.bc.C.FnParams["."+st.Field(fa.Field).Name()]; sp != nil {
+							cx := fr.cx
+							pkg := fr.eng().typesPackage(cx.bc.C.PkgPath)
+							pfv := &FuncVal{param: sp, paramEnv: func(cargs []Val, cur, old *State) *SpecEnv {
+								vars := map[string]Val{}
+								for k, v := range cx.topVars {
+									vars[k] = v
+								}
+								for j, ca := range cargs {
+									vars[fmt.Sprintf("arg%d", j)] = ca
+								}
+								return &SpecEnv{cx: cx, pkg: pkg, vars: vars, cur: cur, old: old}
+							}}
+							fr.safety("nil-func", p, fr.b().Neq(fv.t, fr.b().Int(0)))
+							return fr.callFnParam(pfv, args, p, c.Signature())
+						}
+					}
+				}
+			}
+		}
+	}
+	if phi, ok := c.Value.(*ssa.Phi); ok && fv.fn == nil {
+		if fns := phiFuncs(phi, map[*ssa.Phi]bool{}); len(fns) > 0 {
+			return fr.callOneOf(fv, fns, args, p)
+		}
+	}
 	return fr.callValue(fv, args, p, describeCallee(c), c.Signature())
+}
+
+// phiFuncs: the plain functions a phi of function constants can denote (nil if anything else flows in).
+func phiFuncs(phi *ssa.Phi, seen map[*ssa.Phi]bool) []*ssa.Function {
+	if seen[phi] {
+		return nil
+	}
+	seen[phi] = true
+	var out []*ssa.Function
+	add := func(f *ssa.Function) {
+		for _, g := range out {
+			if g == f {
+				return
+			}
+		}
+		out = append(out, f)
+	}
+	for _, e := range phi.Edges {
+		switch x := e.(type) {
+		case *ssa.Function:
+			add(x)
+		case *ssa.Phi:
+			sub := phiFuncs(x, seen)
+			if sub == nil {
+				return nil
+			}
+			for _, f := range sub {
+				add(f)
+			}
+		default:
+			return nil
+		}
+	}
+	return out
+}
+
+// callOneOf executes an indirect call whose target is one of a closed list of
+// plain functions: one execution per candidate, merged by the value of the target.
+func (fr *Frame) callOneOf(fv Val, fns []*ssa.Function, args []Val, p token.Pos) []Val {
+	b := fr.b()
+	st0, reach0 := fr.st, fr.reach
+	type out struct {
+		cond, reach *Term
+		st          *State
+		res         []Val
+	}
+	var outs []out
+	var conds []*Term
+	for _, fn := range fns {
+		cond := b.Eq(fv.t, b.Int(int64(fr.w().funcID(fn))))
+		conds = append(conds, cond)
+	}
+	fr.safety("func-value", p, b.Or(conds...))
+	for i, fn := range fns {
+		fr.st, fr.reach = st0.clone(), b.And(reach0, conds[i])
+		res := fr.callFunc(fn, nil, args, p)
+		outs = append(outs, out{cond: conds[i], reach: fr.reach, st: fr.st, res: res})
+	}
+	names := map[string]bool{}
+	for _, o := range outs {
+		for k := range o.st.heaps {
+			names[k] = true
+		}
+	}
+	merged := newState()
+	for _, k := range sortedKeys(names) {
+		h := outs[len(outs)-1].st.heap(fr.cx, k)
+		for i := len(outs) - 2; i >= 0; i-- {
+			h = b.Ite(outs[i].cond, outs[i].st.heap(fr.cx, k), h)
+		}
+		merged.set(k, b.Name(k, h))
+	}
+	var rs []*Term
+	for _, o := range outs {
+		rs = append(rs, o.reach)
+	}
+	fr.st, fr.reach = merged, b.Or(rs...)
+	last := outs[len(outs)-1].res
+	res := make([]Val, len(last))
+	for j := range last {
+		t := last[j].t
+		for i := len(outs) - 2; i >= 0; i-- {
+			t = b.Ite(outs[i].cond, outs[i].res[j].t, t)
+		}
+		res[j] = Val{t: t, typ: last[j].typ}
+	}
+	return res
 }
 
 func (fr *Frame) callValue(fv Val, args []Val, p token.Pos, what string, sig *types.Signature) []Val {
@@ -143,7 +263,7 @@ func (fr *Frame) callFunc(fn *ssa.Function, bindings []Val, args []Val, p token.
 }
 
 func (fr *Frame) inline(fn *ssa.Function, bindings []Val, args []Val) []Val {
-	sub := &Frame{cx: fr.cx, fn: fn, vals: map[ssa.Value]Val{}, params: args, free: bindings, depth: fr.depth + 1}
+	sub := &Frame{cx: fr.cx, fn: fn, vals: map[ssa.Value]Val{}, params: args, free: bindings, depth: fr.depth + 1, parent: fr}
 	sub.vars = map[string]Val{}
 	if bc := fr.eng().contractFor(fn); bc != nil {
 		sub.vars = bc.bindParams(args)
@@ -195,6 +315,27 @@ func (fr *Frame) callContract(bc *BoundContract, args []Val, p token.Pos) []Val 
 	vars := bc.bindParams(args)
 	pkg := fr.eng().typesPackage(c.PkgPath)
 	env := &SpecEnv{cx: fr.cx, pkg: pkg, vars: vars, cur: fr.st, old: old}
+	// call-site conditions demanded by the contract of the function under verification
+	if top := fr.cx.bc; top != nil && top.C.Before != nil {
+		cname := c.Sig.Name.Name
+		for bi, bcl := range top.C.Before[cname] {
+			tvars := map[string]Val{}
+			for k, v := range fr.cx.topVars {
+				tvars[k] = v
+			}
+			for j, a := range args {
+				tvars[fmt.Sprintf("arg%d", j)] = a
+			}
+			root := fr
+			for root.parent != nil {
+				root = root.parent
+			}
+			tenv := &SpecEnv{cx: fr.cx, pkg: fr.eng().typesPackage(top.C.PkgPath), vars: tvars, cur: fr.st, old: root.entry, rets: root.lastRets, retNames: root.lastRetNames, called: root.lastCalled}
+			if g := fr.evalClause(tenv, bcl); g != nil {
+				fr.oblige("call-site", "before-"+cname+"."+clauseLabel(bcl, bi), bcl.Text, p, g)
+			}
+		}
+	}
 	for i, rq := range c.Requires {
 		if g := fr.evalClause(env, rq); g != nil {
 			fr.oblige("call-pre", site+"."+clauseLabel(rq, i), rq.Text, p, g)
@@ -212,6 +353,9 @@ func (fr *Frame) callContract(bc *BoundContract, args []Val, p token.Pos) []Val 
 			}
 		}
 	}
+	// type-based frame: a callee from a package the verified package imports cannot name the
+	// struct types declared in the verified package, hence cannot write their fields
+	fr.typeFrameAfterCall(bc, old)
 	// closures handed to the callee may run: the variables they capture become arbitrary
 	for _, a := range args {
 		if a.fn == nil || a.fn.param != nil {
@@ -262,12 +406,34 @@ func (fr *Frame) callContract(bc *BoundContract, args []Val, p token.Pos) []Val 
 		}
 	}
 	bc.bindResults(rvars, res)
+	fr.foreignResultTypes(bc, res)
 	if fr.lastRets == nil {
 		fr.lastRets = map[string][]Val{}
 		fr.lastRetNames = map[string]map[string]int{}
 	}
-	if bc.Fn != nil {
-		fr.lastRets[bc.Fn.Name()] = res
+	{
+		cname := bc.C.Sig.Name.Name
+		if bc.Fn != nil {
+			cname = bc.Fn.Name()
+		}
+		// calls made in inlined helpers are visible to the contract of the function under verification too
+		for f := fr; f != nil; f = f.parent {
+			if f.lastRets == nil {
+				f.lastRets = map[string][]Val{}
+				f.lastRetNames = map[string]map[string]int{}
+			}
+		}
+		for f := fr; f != nil; f = f.parent {
+			if f.lastCalled == nil {
+				f.lastCalled = map[string]*Term{}
+			}
+			if prev, ok := f.lastCalled[cname]; ok {
+				f.lastCalled[cname] = b.Or(prev, fr.reach)
+			} else {
+				f.lastCalled[cname] = fr.reach
+			}
+		}
+		fr.lastRets[cname] = res
 		names := map[string]int{}
 		i := 0
 		if c.Sig.Type.Results != nil {
@@ -282,9 +448,16 @@ func (fr *Frame) callContract(bc *BoundContract, args []Val, p token.Pos) []Val 
 				}
 			}
 		}
-		fr.lastRetNames[bc.Fn.Name()] = names
+		fr.lastRetNames[cname] = names
+		for f := fr.parent; f != nil; f = f.parent {
+			f.lastRets[cname] = res
+			f.lastRetNames[cname] = names
+		}
 	}
 	env2 := &SpecEnv{cx: fr.cx, pkg: pkg, vars: rvars, cur: fr.st, old: old}
+	for _, sc := range c.Sets {
+		applyGhostSet(fr.cx, env2, sc, fr.st)
+	}
 	for _, en := range c.Ensures {
 		if en.Assumed {
 			fr.cx.trust(fmt.Sprintf("assumed postcondition of %s: %s", bc.Short(), en.Text))
@@ -805,4 +978,174 @@ func (fr *Frame) copySlice(c *ssa.CallCommon, args []Val, p token.Pos) Val {
 	n := b.Name("copyn", b.Ite(b.BVCmp("bvslt", dl, sl), dl, sl))
 	fr.transformHeaps(dt.Elem(), w.sbase(dst.t), w.soff(dst.t), n, w.sbase(src.t), w.soff(src.t))
 	return Val{t: n, typ: intT}
+}
+
+// typeFrameAfterCall: after a `modifies everything` call into an imported package, the fields of
+// struct types declared in the package under verification keep their values.
+func (fr *Frame) typeFrameAfterCall(bc *BoundContract, old *State) {
+	top := fr.cx.bc
+	if top == nil || top.C.PkgPath == bc.C.PkgPath {
+		return
+	}
+	all := false
+	for _, mc := range bc.C.Modifies {
+		for _, x := range mc.Exprs {
+			if id, ok := x.(*ast.Ident); ok && id.Name == "everything" {
+				all = true
+			}
+		}
+	}
+	if !all {
+		return
+	}
+	eng := fr.eng()
+	tp := eng.typesPackage(top.C.PkgPath)
+	cp := eng.typesPackage(bc.C.PkgPath)
+	if tp == nil || cp == nil || !importsTransitively(tp, cp, map[*types.Package]bool{}) {
+		return
+	}
+	w, b := fr.w(), fr.b()
+	// field ids of all struct types declared in the verified package
+	var fids []int
+	scope := tp.Scope()
+	for _, nm := range scope.Names() {
+		tn, ok := scope.Lookup(nm).(*types.TypeName)
+		if !ok || !isStructType(tn.Type()) {
+			continue
+		}
+		si := w.structInfo(tn.Type())
+		for _, f := range si.Fields {
+			fids = append(fids, f.FID)
+		}
+		for _, f := range si.Ghosts {
+			fids = append(fids, f.FID)
+		}
+	}
+	if len(fids) == 0 {
+		return
+	}
+	sort.Ints(fids)
+	for _, hn := range sortedKeys(w.heapSort) {
+		if arrayKeySort(w.heapSort[hn]) != SLoc {
+			continue
+		}
+		hc, ho := fr.st.heap(fr.cx, hn), old.heap(fr.cx, hn)
+		if def(hc) == def(ho) {
+			continue
+		}
+		ln := fmt.Sprintf("l?%d", fr.cx.nextBound())
+		l := b.BVar(ln, SLoc)
+		setName := "fidsOf_" + sanitize(tp.Name())
+		w.fidSets[setName] = fids
+		in := b.And(b.mk("(_ is Fld)", SBool, l), b.mk(setName, SBool, b.App("fid", SInt, l)))
+		fr.assume(b.Forall([]BoundVar{{ln, SLoc}}, b.Implies(in, b.Eq(b.Select(hc, l), b.Select(ho, l))), b.Select(hc, l)))
+	}
+	// ground instances for the objects the contract under verification talks about: the parameters of
+	// top-package struct type and the top-package objects their fields point to (two levels)
+	isTop := func(t types.Type) bool {
+		n, ok := t.(*types.Named)
+		return ok && n.Obj().Pkg() == tp && isStructType(t)
+	}
+	var ground func(ptr *Term, t types.Type, depth int)
+	seenObj := map[int]bool{}
+	ground = func(ptr *Term, t types.Type, depth int) {
+		if seenObj[def(ptr).id] || !fr.cx.enumerable(t) {
+			return
+		}
+		seenObj[def(ptr).id] = true
+		fr.cx.leaves(ptr, t, func(loc *Term, lt types.Type) {
+			hn := w.heapName(w.sortOf(lt))
+			hc, ho := fr.st.heap(fr.cx, hn), old.heap(fr.cx, hn)
+			if def(hc) != def(ho) && locCtor(def(loc)) == "Fld" {
+				fr.assume(b.Eq(b.Select(hc, loc), b.Select(ho, loc)))
+			}
+			if pt, ok := lt.Underlying().(*types.Pointer); ok && depth < 2 && isTop(pt.Elem()) {
+				ground(b.Select(ho, loc), pt.Elem(), depth+1)
+			}
+		})
+	}
+	var pnames []string
+	for k := range fr.cx.topVars {
+		pnames = append(pnames, k)
+	}
+	sort.Strings(pnames)
+	for _, k := range pnames {
+		v := fr.cx.topVars[k]
+		if v.t == nil || v.typ == nil {
+			continue
+		}
+		if pt, ok := v.typ.Underlying().(*types.Pointer); ok && isTop(pt.Elem()) {
+			ground(v.t, pt.Elem(), 0)
+		}
+	}
+	// ghost variables declared by the contracts of the verified package
+	for i, g := range eng.cs.GhostVars {
+		if g.PkgPath != top.C.PkgPath {
+			continue
+		}
+		gv := eng.ghostVar(g.Field)
+		if gv == nil {
+			continue
+		}
+		_ = i
+		loc := b.Glob(1000000 + gv.id)
+		fr.assume(b.Eq(fr.cx.load(fr.st, loc, gv.typ), fr.cx.load(old, loc, gv.typ)))
+	}
+	fr.cx.trust(fmt.Sprintf("type-based frame: %s (package %s) does not write fields of struct types declared in package %s, which it cannot name (no unsafe/reflect aliasing)", bc.Short(), cp.Name(), tp.Name()))
+}
+
+func importsTransitively(from, to *types.Package, seen map[*types.Package]bool) bool {
+	if seen[from] {
+		return false
+	}
+	seen[from] = true
+	for _, imp := range from.Imports() {
+		if imp == to || importsTransitively(imp, to, seen) {
+			return true
+		}
+	}
+	return false
+}
+
+// foreignResultTypes: an interface value returned by a callee from an imported package does not
+// have a dynamic type declared in the package under verification (the callee cannot name it).
+func (fr *Frame) foreignResultTypes(bc *BoundContract, res []Val) {
+	top := fr.cx.bc
+	if top == nil || top.C.PkgPath == bc.C.PkgPath || bc.C.Kind == "interface" {
+		return
+	}
+	eng := fr.eng()
+	tp := eng.typesPackage(top.C.PkgPath)
+	cp := eng.typesPackage(bc.C.PkgPath)
+	if tp == nil || cp == nil || !importsTransitively(tp, cp, map[*types.Package]bool{}) {
+		return
+	}
+	w, b := fr.w(), fr.b()
+	var ids []int
+	scope := tp.Scope()
+	for _, nm := range scope.Names() {
+		tn, ok := scope.Lookup(nm).(*types.TypeName)
+		if !ok || tn.IsAlias() {
+			continue
+		}
+		if _, isIface := tn.Type().Underlying().(*types.Interface); isIface {
+			continue
+		}
+		ids = append(ids, w.typeID(tn.Type()), w.typeID(types.NewPointer(tn.Type())))
+	}
+	used := false
+	for _, r := range res {
+		if r.t == nil || r.t.sort != SIface {
+			continue
+		}
+		var cs []*Term
+		for _, id := range ids {
+			cs = append(cs, b.Neq(w.itype(r.t), b.Int(int64(id))))
+		}
+		fr.assume(b.And(cs...))
+		used = true
+	}
+	if used {
+		fr.cx.trust(fmt.Sprintf("type-based: interface values returned by %s (package %s) do not have a dynamic type declared in package %s", bc.Short(), cp.Name(), tp.Name()))
+	}
 }
